@@ -31,7 +31,7 @@ func (f *Formatter) formatAclDeclaration(decl *ast.AclDeclaration) *Declaration 
 		}
 		buf.WriteString(`"` + cidr.IP.Value + `"`)
 		if cidr.Mask != nil {
-			buf.WriteString("/" + cidr.Mask.String())
+			buf.WriteString("/" + f.formatNode(cidr.Mask))
 		}
 		if v := f.formatComment(cidr.IP.Trailing, " ", 0); v != "" {
 			buf.WriteString(" " + v)
@@ -58,7 +58,7 @@ func (f *Formatter) formatAclDeclaration(decl *ast.AclDeclaration) *Declaration 
 	defer bufferPool.Put(buf)
 
 	buf.Reset()
-	buf.WriteString("acl " + decl.Name.String() + " {\n")
+	buf.WriteString("acl " + f.formatNode(decl.Name) + " {\n")
 	buf.WriteString(group.String())
 	if len(decl.Infix) > 0 {
 		buf.WriteString(f.formatComment(decl.Infix, "\n", 1))
@@ -78,7 +78,7 @@ func (f *Formatter) formatBackendDeclaration(decl *ast.BackendDeclaration) *Decl
 	defer bufferPool.Put(buf)
 
 	buf.Reset()
-	buf.WriteString("backend " + decl.Name.String() + " {\n")
+	buf.WriteString("backend " + f.formatNode(decl.Name) + " {\n")
 	buf.WriteString(f.formatBackendProperties(decl.Properties, 1))
 	if len(decl.Infix) > 0 {
 		buf.WriteString(f.formatComment(decl.Infix, "\n", 1))
@@ -112,7 +112,7 @@ func (f *Formatter) formatBackendProperties(props []*ast.BackendProperty, nestLe
 		line := &DeclarationPropertyLine{
 			Leading:  f.formatComment(prop.Leading, "\n", nestLevel),
 			Trailing: f.trailing(prop.Trailing),
-			Key:      f.indent(nestLevel) + "." + prop.Key.String(),
+			Key:      f.indent(nestLevel) + "." + f.formatNode(prop.Key),
 			Operator: " = ",
 		}
 		if po, ok := prop.Value.(*ast.BackendProbeObject); ok {
@@ -180,7 +180,7 @@ func (f *Formatter) formatDirectorDeclaration(decl *ast.DirectorDeclaration) *De
 				if v := f.formatComment(v.Leading, " ", 0); v != "" {
 					line.Key += v
 				}
-				line.Key += fmt.Sprintf(".%s = %s; ", v.Key.String(), f.formatExpression(v.Value).String())
+				line.Key += fmt.Sprintf(".%s = %s; ", f.formatNode(v.Key), f.formatExpression(v.Value).String())
 			}
 			if len(t.Infix) > 0 {
 				line.Key += f.formatComment(t.Infix, " ", 0)
@@ -189,7 +189,7 @@ func (f *Formatter) formatDirectorDeclaration(decl *ast.DirectorDeclaration) *De
 			// Backend property is object, semicolon is not needed
 			line.isObject = true
 		case *ast.DirectorProperty:
-			line.Key += "." + t.Key.String()
+			line.Key += "." + f.formatNode(t.Key)
 			line.Operator = " = "
 			line.Value = f.formatExpression(t.Value).String()
 			line.EndCharacter = ";"
@@ -216,7 +216,7 @@ func (f *Formatter) formatDirectorDeclaration(decl *ast.DirectorDeclaration) *De
 	defer bufferPool.Put(buf)
 
 	buf.Reset()
-	buf.WriteString("director " + decl.Name.String() + " " + decl.DirectorType.String() + " {\n")
+	buf.WriteString("director " + f.formatNode(decl.Name) + " " + f.formatNode(decl.DirectorType) + " {\n")
 	buf.WriteString(group.String())
 	if len(decl.Infix) > 0 {
 		buf.WriteString(f.formatComment(decl.Infix, "\n", 1))
@@ -236,9 +236,9 @@ func (f *Formatter) formatTableDeclaration(decl *ast.TableDeclaration) *Declarat
 	defer bufferPool.Put(buf)
 
 	buf.Reset()
-	buf.WriteString("table " + decl.Name.String())
+	buf.WriteString("table " + f.formatNode(decl.Name))
 	if decl.ValueType != nil {
-		buf.WriteString(" " + decl.ValueType.String())
+		buf.WriteString(" " + f.formatNode(decl.ValueType))
 	}
 	buf.WriteString(" {\n")
 	buf.WriteString(f.formatTableProperties(decl.Properties))
@@ -305,7 +305,7 @@ func (f *Formatter) formatPenaltyboxDeclaration(decl *ast.PenaltyboxDeclaration)
 	defer bufferPool.Put(buf)
 
 	buf.Reset()
-	buf.WriteString("penaltybox " + decl.Name.String())
+	buf.WriteString("penaltybox " + f.formatNode(decl.Name))
 	buf.WriteString(" {")
 	// penaltybox does not have properties
 	if len(decl.Block.Infix) > 0 {
@@ -327,7 +327,7 @@ func (f *Formatter) formatRatecounterDeclaration(decl *ast.RatecounterDeclaratio
 	defer bufferPool.Put(buf)
 
 	buf.Reset()
-	buf.WriteString("ratecounter " + decl.Name.String())
+	buf.WriteString("ratecounter " + f.formatNode(decl.Name))
 	buf.WriteString(" {")
 	// ratecounter does not have properties
 	if len(decl.Block.Infix) > 0 {
@@ -349,13 +349,13 @@ func (f *Formatter) formatSubroutineDeclaration(decl *ast.SubroutineDeclaration)
 	defer bufferPool.Put(buf)
 
 	buf.Reset()
-	buf.WriteString("sub " + decl.Name.String())
+	buf.WriteString("sub " + f.formatNode(decl.Name))
 
 	// Format subroutine parameters if exists
 	if len(decl.Parameters) > 0 {
 		args := make([]string, len(decl.Parameters))
 		for i, param := range decl.Parameters {
-			args[i] = param.Type.String() + " " + param.Name.String()
+			args[i] = f.formatNode(param.Type) + " " + f.formatNode(param.Name)
 		}
 		buf.WriteString("(" + strings.Join(args, ", ") + ")")
 	}
@@ -364,7 +364,7 @@ func (f *Formatter) formatSubroutineDeclaration(decl *ast.SubroutineDeclaration)
 
 	// Functional Subroutine
 	if decl.ReturnType != nil {
-		buf.WriteString(decl.ReturnType.String() + " ")
+		buf.WriteString(f.formatNode(decl.ReturnType) + " ")
 		f.isFunctionalSubroutine = true // flag turns on
 		defer func() {
 			f.isFunctionalSubroutine = false
